@@ -252,10 +252,11 @@ Definition open_connection (cfg : mcfg) (k : nat) (tcp : bool) (env : open_env) 
     end.
 
 (* find_src_addr (ares_sortaddrinfo.c): UDP socket, connect, getsockname, close *)
-Definition probe (k : nat) (socket_ok connect_ok : bool) : list sevent :=
+Definition probe (k : nat) (socket_ok : bool) (intr : nat) (connect_ok : bool) : list sevent :=
   if negb socket_ok then [ESocketFail]
-  else if negb connect_ok then [ESocket k false; EConnect k false; EClose k]
-  else [ESocket k false; EConnect k true; EGetsockname k; EClose k].
+  else ESocket k false :: repeat (EConnect k false) intr ++       (* ares_socket_connect retries on EINTR *)
+       (if negb connect_ok then [EConnect k false; EClose k]
+        else [EConnect k true; EGetsockname k; EClose k]).
 
 (* ares_close_connection after the unlink and the requeue: final notification, aclose *)
 Definition finish_close (cfg : mcfg) (k : nat) (c : csock) : list sevent * csock :=
@@ -278,7 +279,7 @@ Definition can_take_query (cfg : mcfg) (c : csock) : bool :=
 
 Inductive action :=
 | AOpen (tcp : bool) (env : open_env)      (* ares_open_connection *)
-| AProbe (socket_ok connect_ok : bool)     (* sortaddrinfo source address probe *)
+| AProbe (socket_ok : bool) (intr : nat) (connect_ok : bool)   (* sortaddrinfo source address probe *)
 | AQuery (k : nat) (newrw : Z) (sent : bool)
      (* ares_send_query on connection k: total_queries++, write attempt; the interest
         announced afterwards is newrw (READ or READ|WRITE); sent: the message left *)
@@ -319,10 +320,10 @@ Definition step (cfg : mcfg) (s : cstate) (a : action) : option (cstate * list s
     | OpenFailedClosed => Some (mkst (st_socks s ++ [mkcs tcp PClosed false 0 0 0 0 false false]) false, evs)
     | OpenOk c => Some (mkst (st_socks s ++ [c]) false, evs)
     end
-  | AProbe sok cok =>
+  | AProbe sok intr cok =>
     let k := length (st_socks s) in
     Some (if sok then mkst (st_socks s ++ [mkcs false PClosed false 0 0 0 0 false false]) false else s,
-          probe k sok cok)
+          probe k sok intr cok)
   | AQuery k newrw sent =>
     match nth_error (st_socks s) k with
     | Some c =>
